@@ -144,8 +144,12 @@ def classify_stall(text):
                 return None  # the harness itself waits for a mutex
             continue
         parked_by_sim = "verifsim/core.(*Sim).Yield" in b
-        if parked_by_sim and under_test:
-            return None  # parked inside the code under test: may hold the lock
+        if parked_by_sim and ("handlerLoop" in b or "simhook.At" not in b) and under_test:
+            # parked inside a handler body (the queue processor holds the schema
+            # read lock meanwhile) or by a proxy in the middle of the code under
+            # test: may be what the mutex waits for. Goroutines parked at
+            # simhook.At points hold no lock by placement.
+            return None
     if not victims:
         return None
     names = []
@@ -376,6 +380,8 @@ def search(prop, family, meta, tier, seed, workers, budget, binary, scratch, t0,
             json.dump(rep, open(path, "w"), indent=1)
             violations.append((c2, path, "data race %s (one of %d in this run)" % (c2, len(rep["all_classes"]))))
         by_class = {}
+    n_shrunk = 0
+    max_shrunk = meta.get("max_shrunk", 8)
     for cls in sorted(by_class):
         f = by_class[cls][1]
         if cls.startswith("harness/"):
@@ -387,8 +393,11 @@ def search(prop, family, meta, tier, seed, workers, budget, binary, scratch, t0,
         # unknown: minimise, then confirm by replaying in a fresh process
         case_path = os.path.join(scratch, "case-%s.json" % sanitize(cls))
         json.dump(f, open(case_path, "w"))
+        n_shrunk += 1
+        # only the first few classes are minimised (a check that finds dozens of
+        # classes would spend its time shrinking): the rest is replayed as found
         res, err = one_shot(binary, family, "shrink", case_path, scratch,
-                            budget_ms=int(shrink_budget * 1000))
+                            budget_ms=int(shrink_budget * 1000) if n_shrunk <= max_shrunk else 1)
         if res is None or res["case"]["class"] != cls:
             harness.append("failure %s at seed %s did not reproduce in the shrinker: %s" % (cls, f["seed"], (err or "")[-2000:]))
             continue
